@@ -37,10 +37,11 @@ type ctlState struct {
 	userStartSinceRecovering                     bool
 	everUserStartDuringRecovery                  bool
 	dstNacks, dlqRejects, procErrors, stuckCalls int
-	restartInProgress                            bool // an automatic restart has begun and the pipeline is not yet reported running again
-	forceStopIssued                              bool // a force stop request has been issued at some time in this run
-	forceStopFoundRunOver                        bool // ... and at that moment the run had already closed all its plugin sessions
-	forceDuringGraceful                          bool // ... or a graceful stop of that run had already been acknowledged
+	restartInProgress                            bool  // an automatic restart has begun and the pipeline is not yet reported running again
+	forceStopIssued                              bool  // a force stop request has been issued at some time in this run
+	forceStopFoundRunOver                        bool  // ... and at that moment the run had already closed all its plugin sessions
+	forceDuringGraceful                          bool  // ... or a graceful stop of that run had already been acknowledged
+	ambiguousUntil                               int64 // sim ms until which the number of restarts left cannot be known
 	// the start in progress (a Start call or an automatic restart) and what its run has done so far
 	startActive       bool
 	openedSinceStart  int
@@ -88,7 +89,10 @@ func (o *Oracles) onPark(w *World, kind string) {
 	if w.cfg.Hostile || o.statusWriteFailedEver {
 		return
 	}
-	if d < int64(rc.MinDelayMs) || d > int64(rc.MaxDelayMs) {
+	// lower bound exact; upper bound plus what the world may take to answer the calls the
+	// restart makes before its first plugin call (store reads, a start lock held by a user
+	// Start that is itself waiting for the store): the simulator answers within 700 ms each
+	if d < int64(rc.MinDelayMs) || d > int64(rc.MaxDelayMs)+1500 {
 		w.violate("C10", "backoff-out-of-bounds", fmt.Sprintf("automatic restart began %d ms after the pipeline was marked recovering; configured back-off bounds are [%d, %d] ms", d, rc.MinDelayMs, rc.MaxDelayMs))
 	}
 	if c.userStopOK {
@@ -137,7 +141,7 @@ func (o *Oracles) onControlEvent(w *World, e *Event) {
 					}
 				}
 				o.expectGiveUp = !boundary && int64(counted)+1 > rc.MaxRetries
-				o.expectRestart = !boundary && int64(counted)+1 <= rc.MaxRetries
+				o.expectRestart = !boundary && int64(counted)+1 <= rc.MaxRetries && e.T > c.ambiguousUntil
 			} else {
 				o.expectGiveUp, o.expectRestart = false, rc.MaxRetries < 0
 			}
@@ -188,7 +192,13 @@ func (o *Oracles) onControlEvent(w *World, e *Event) {
 				c.runStartStep = append(c.runStartStep, c.startCallStep[e.Ent]) // a new run began with this call
 				c.userStopOK, c.forceStopped = false, false
 				if c.statusAtCall[e.Ent] != 5 {
-					c.restartTimes = nil // a fresh run gets fresh retry counters (a recovering one hands them on)
+					// a fresh run gets fresh retry counters (a recovering one hands them on) - unless
+					// the start raced the end of the previous run's cleanup and inherited them:
+					// until the window has passed, how many restarts are left is not decidable
+					if n := len(c.restartTimes); n > 0 {
+						c.ambiguousUntil = c.restartTimes[n-1] + int64(w.cfg.Recovery.WindowMs)
+					}
+					c.restartTimes = nil
 				}
 				c.lastUserStart = e.Seq
 			}
